@@ -30,17 +30,17 @@ Inductive obs :=
 Definition bn (b : bool) : nat := if b then 1 else 0.
 Definition lkcode (l : lk) : nat := match l with LFree => 0 | LCaller => 1 | LMain => 2 end.
 Definition cpccode (p : cpc) : nat :=
-  match p with Idle => 0 | St_chkF => 12 | St_chk => 1 | St_spawn => 2 | St_setrun => 3 | St_rel => 4 | Sp_chk => 5
+  match p with Idle => 0 | St_chkF => 12 | St_chkT => 13 | St_spawnT => 14 | St_chk => 1 | St_spawn => 2 | St_setrun => 3 | St_rel => 4 | Sp_chk => 5
   | Sp_rel1 => 6 | Sp_join => 7 | Sp_clear => 8 | Sp_acq2 => 9 | Sp_reset => 10 | Sp_rel2 => 11 end.
 Definition mpccode (m : mpc) : nat :=
   match m with MNone => 0 | M_acq => 1 | M_chk => 2 | M_recv => 3 | M_close => 4 | MEnded => 5 end.
 Definition skcode (s : sk) : nat := match s with SNone => 0 | SOpen => 1 | SClosed => 2 end.
 Definition tgcode (g : glob) : nat :=
   bn (running g) + 2 * (bn (shreq g) + 2 * (lkcode (lock g) + 3 * (bn (mref g) + 2 * (mpccode (mt g) + 6 * (skcode (sock g) + 3 * bn (err g)))))).
-Definition opcode (o : op) : nat := match o with Start => 1 | Stop => 0 | StartF => 2 end.
+Definition opcode (o : op) : nat := match o with Start => 1 | Stop => 0 | StartF => 2 | StartT => 3 end.
 
 Definition hpccode (p : hpc) : nat :=
-  match p with HIdle => 0 | H_chkF => 12 | H_chk => 1 | H_spawn => 2 | H_setrun => 3 | H_rel => 4 | P_chk => 5
+  match p with HIdle => 0 | H_chkF => 12 | H_chkT => 13 | H_spawnT => 14 | H_chk => 1 | H_spawn => 2 | H_setrun => 3 | H_rel => 4 | P_chk => 5
   | P_wait => 6 | P_close => 7 | P_join => 8 | P_clear => 9 | P_reset => 10 | P_rel => 11 end.
 Definition hmpccode (m : hmpc) : nat :=
   match m with HMNone => 0 | HM_clear => 1 | HM_loop => 2 | HM_fin => 3 | HM_ret => 4 | HMEnded => 5 end.
@@ -48,7 +48,7 @@ Definition hskcode (s : hsk) : nat := match s with HSNone => 0 | HSOpen => 1 | H
 Definition hgcode (g : hglob) : nat :=
   bn (hrunning g) + 2 * (lkcode (hlock g) + 3 * (bn (hmref g) + 2 * (hmpccode (hmt g) + 6 * (hskcode (hsock g) + 3 *
   (bn (sreq g) + 2 * (bn (isdown g) + 2 * bn (herr g))))))).
-Definition hopcode (o : hop) : nat := match o with HStart => 1 | HStop => 0 | HStartF => 2 end.
+Definition hopcode (o : hop) : nat := match o with HStart => 1 | HStop => 0 | HStartF => 2 | HStartT => 3 end.
 
 Definition explore_fuel : nat := 60 * 60 * 60.
 
@@ -57,7 +57,7 @@ Definition tpre (pre : bool) : glob :=
   if pre then match call glob cpc op lock (cstep cur) (mstep cur) is_idle Idle init Start with Some g => g | None => init end
   else init.
 Definition hpre (pre : bool) : hglob :=
-  if pre then match call hglob hpc hop hlock (hcstep true) hmstep his_idle HIdle hinit HStart with Some g => g | None => hinit end
+  if pre then match call hglob hpc hop hlock (hcstep true true) hmstep his_idle HIdle hinit HStart with Some g => g | None => hinit end
   else hinit.
 
 Definition tpool0 (pre : bool) (ops : list (list bool)) : st glob cpc op :=
@@ -70,7 +70,7 @@ Definition hpool0 (pre : bool) (ops : list (list bool)) : st hglob hpc hop :=
 Definition texplore (fuel : nat) (pre : bool) (ops : list (list bool)) :=
   explore glob cpc op lock (cstep cur) (mstep cur) tgcode cpccode opcode fuel [tpool0 pre ops] [].
 Definition hexplore (fuel : nat) (pre : bool) (ops : list (list bool)) :=
-  explore hglob hpc hop hlock (hcstep true) hmstep hgcode hpccode hopcode fuel [hpool0 pre ops] [].
+  explore hglob hpc hop hlock (hcstep true true) hmstep hgcode hpccode hopcode fuel [hpool0 pre ops] [].
 
 Definition tfinal (gl : glob) : nat := if Running gl then 1 else if Stopped gl then 0 else 2.
 Definition hfinal (gl : hglob) : nat := if HRunning gl then 1 else if HStopped gl then 0 else 2.
@@ -79,7 +79,7 @@ Definition tconc_obs (fuel : nat) (pre : bool) (ops : list (list bool)) : obs :=
   let '(r, d, f) := conc_obs glob cpc op lock (cstep cur) (mstep cur) is_idle tgcode cpccode opcode err tfinal
                       fuel (tpool0 pre ops) in OConc r d f.
 Definition hconc_obs (fuel : nat) (pre : bool) (ops : list (list bool)) : obs :=
-  let '(r, d, f) := conc_obs hglob hpc hop hlock (hcstep true) hmstep his_idle hgcode hpccode hopcode herr hfinal
+  let '(r, d, f) := conc_obs hglob hpc hop hlock (hcstep true true) hmstep his_idle hgcode hpccode hopcode herr hfinal
                       fuel (hpool0 pre ops) in OConc r d f.
 
 Definition xfer_obs (e : env) : obs :=
@@ -91,7 +91,7 @@ Definition xfer_obs (e : env) : obs :=
 Definition run_model_f (fuel : nat) (c : case) : obs :=
   match c with
   | Seq Tftp h => OSeq (tseq cur init h)
-  | Seq Http h => OSeq (hseq true hinit h)
+  | Seq Http h => OSeq (hseq true true hinit h)
   | Conc Tftp pre ops => tconc_obs fuel pre ops
   | Conc Http pre ops => hconc_obs fuel pre ops
   | Xfer e => xfer_obs e
@@ -110,13 +110,13 @@ Definition seq_clauses (o : sop) (ob sp : list nat) : list string :=
    else match o with
         | SStop | SStopBusy => ["stop_releases"]
         | SStart => ["start_brings_up"]
-        | SStartFail => ["failed_start_leaves_state"]
+        | SStartFail | SStartThreadFail => ["failed_start_leaves_state"]
         | _ => ["state_stable_between_calls"]
         end) ++
   (if Nat.eqb (nth0 ob 3) (nth0 sp 3) then []
    else match o with
         | SStopBusy => ["stop_waits_for_main_thread"]
-        | SStartFail => ["start_raises_iff_bind_fails"]
+        | SStartFail | SStartThreadFail => ["start_raises_iff_it_fails"]
         | _ => ["requests_served_iff_running"]
         end).
 
@@ -162,7 +162,7 @@ Definition valid : case -> Prop := valid_f explore_fuel.
 
 (* ---------- sx ---------- *)
 Definition asSop (x : sx) : option sop :=
-  match x with I 0%Z => Some SStart | I 1%Z => Some SStop | I 2%Z => Some SRequest | I 3%Z => Some STick | I 4%Z => Some SStopBusy | I 5%Z => Some SStartFail | _ => None end.
+  match x with I 0%Z => Some SStart | I 1%Z => Some SStop | I 2%Z => Some SRequest | I 3%Z => Some STick | I 4%Z => Some SStopBusy | I 5%Z => Some SStartFail | I 6%Z => Some SStartThreadFail | _ => None end.
 Definition asSrv (x : sx) : option srv := match x with I 0%Z => Some Tftp | I 1%Z => Some Http | _ => None end.
 Definition asHres (x : sx) : option handler_res :=
   match x with I 0%Z => Some HFile | I 1%Z => Some HTftpError | I 2%Z => Some HException | _ => None end.
@@ -200,5 +200,11 @@ Definition entry (x : sx) : sx :=
   | None => sxS "bad-case"
   | Some (c, io) =>
       let m := run_model c in
-      L [ sx_obs m; L (map sxS (holds c m)); L (map sxS (holds c io)) ]
+      L [ sx_obs m; L (map sxS (holds c m)); L (map sxS (holds c io));
+          (* A.1 (ii): what the known bug variants do on this case, so that the harness can say which one the
+             implementation matches: HttpServer.start without clean-up when Thread.start() fails *)
+          match c with
+          | Seq Http h => sx_obs (OSeq (hseq true false hinit h))
+          | _ => L []
+          end ]
   end.
